@@ -316,3 +316,101 @@ Proof.
   - cbn in H. injection H as -> _. reflexivity.
   - cbn [skipn] in H. cbn [nth_error]. apply IH. exact H.
 Qed.
+
+(** * "Every node of the tree" *)
+(** the objects directly below a node: argument slots, the body (a node list
+    object when there is one), list items *)
+Definition kids (n : node) : list (option node) :=
+  match n with
+  | NChars _ _ _ _ | NComment _ _ _ _ _ => []
+  | NGroup _ _ _ _ _ b | NMath _ _ _ _ _ _ b => [b]
+  | NMacro _ _ _ _ _ a | NSpecials _ _ _ _ a => arg_items a
+  | NEnv _ _ _ _ a b => arg_items a ++ [b]
+  | NList _ _ items => items
+  end.
+
+Inductive in_tree : node -> node -> Prop :=
+| it_here n : in_tree n n
+| it_below m k n : In (Some k) (kids n) -> in_tree m k -> in_tree m n.
+
+Lemma wf_items_in s l k : wf_items s l -> In (Some k) l -> wf_node s k.
+Proof.
+  induction l as [|[x|] l IH]; cbn [wf_items In]; [tauto| |].
+  - intros [A B] [E|E]; [injection E as <-; exact A | auto].
+  - intros A [E|E]; [discriminate | auto].
+Qed.
+
+Lemma wf_kids s n k : wf_node s n -> In (Some k) (kids n) -> wf_node s k.
+Proof.
+  destruct n; cbn [kids In].
+  - tauto.
+  - tauto.
+  - rewrite wf_group. intros (_ & _ & _ & _ & H) [E|[]]. subst body. tauto.
+  - rewrite wf_macro. intros (_ & _ & H). destruct args as [[sp l]|]; cbn [arg_items]; [|intros []].
+    intros I. eapply wf_items_in; [apply H | exact I].
+  - rewrite wf_env. intros (_ & _ & _ & _ & H1 & H2) I. apply in_app_or in I. destruct I as [I|[E|[]]].
+    + destruct args as [[sp l]|]; cbn [arg_items] in I; [|destruct I]. eapply wf_items_in; eauto.
+    + subst body. exact H2.
+  - rewrite wf_specials. intros (_ & _ & H). destruct args as [[sp l]|]; cbn [arg_items]; [|intros []].
+    intros I. eapply wf_items_in; [apply H | exact I].
+  - rewrite wf_math. intros (_ & _ & _ & _ & H) [E|[]]. subst body. tauto.
+  - rewrite wf_list. intros [_ H] I. eapply wf_items_in; eauto.
+Qed.
+
+(** [wf_node] of the root is [wf_node] of every node of the tree *)
+Theorem wf_in_tree s m n : in_tree m n -> wf_node s n -> wf_node s m.
+Proof.
+  induction 1 as [n|m k n I _ IH]; intros W; [exact W|]. apply IH. eapply wf_kids; eauto.
+Qed.
+
+(** ** A hand-written induction principle for the nested [node] type *)
+Section NodeInd.
+  Variable P : node -> Prop.
+  Definition Pl (l : list (option node)) : Prop := forall k, In (Some k) l -> P k.
+  Definition Po (o : option node) : Prop := match o with Some k => P k | None => True end.
+  Hypothesis Hchars : forall p e m c, P (NChars p e m c).
+  Hypothesis Hcomment : forall p e m c po, P (NComment p e m c po).
+  Hypothesis Hgroup : forall p e m dl dr b, Po b -> P (NGroup p e m dl dr b).
+  Hypothesis Hmacro : forall p e m nm po a, Pl (arg_items a) -> P (NMacro p e m nm po a).
+  Hypothesis Henv : forall p e m nm a b, Pl (arg_items a) -> Po b -> P (NEnv p e m nm a b).
+  Hypothesis Hspecials : forall p e m c a, Pl (arg_items a) -> P (NSpecials p e m c a).
+  Hypothesis Hmath : forall p e m d dl dr b, Po b -> P (NMath p e m d dl dr b).
+  Hypothesis Hlist : forall a b items, Pl items -> P (NList a b items).
+
+  Fixpoint node_ind' (n : node) : P n :=
+    let list_ind := fix li (l : list (option node)) : Pl l :=
+        match l return Pl l with
+        | [] => fun k (H : In (Some k) []) => match H with end
+        | o :: r =>
+            fun k (H : In (Some k) (o :: r)) =>
+              match H with
+              | or_introl E =>
+                  match o return o = Some k -> P k with
+                  | Some x => fun E' : Some x = Some k =>
+                      match E' in _ = y return match y with Some z => P z | None => True end with
+                      | eq_refl => node_ind' x end
+                  | None => fun E' : None = Some k =>
+                      match E' in _ = y return match y with Some z => P z | None => True end with
+                      | eq_refl => I end
+                  end E
+              | or_intror H' => li r k H'
+              end
+        end in
+    let opt_ind := fun (o : option node) =>
+        match o return Po o with Some k => node_ind' k | None => I end in
+    let args_ind := fun (a : option pargs) =>
+        match a return Pl (arg_items a) with
+        | Some (_, l) => list_ind l
+        | None => fun k (H : In (Some k) []) => match H with end
+        end in
+    match n with
+    | NChars p e m c => Hchars p e m c
+    | NComment p e m c po => Hcomment p e m c po
+    | NGroup p e m dl dr b => Hgroup p e m dl dr b (opt_ind b)
+    | NMacro p e m nm po a => Hmacro p e m nm po a (args_ind a)
+    | NEnv p e m nm a b => Henv p e m nm a b (args_ind a) (opt_ind b)
+    | NSpecials p e m c a => Hspecials p e m c a (args_ind a)
+    | NMath p e m d dl dr b => Hmath p e m d dl dr b (opt_ind b)
+    | NList a b items => Hlist a b items (list_ind items)
+    end.
+End NodeInd.
